@@ -537,6 +537,19 @@ func NewOpLib() *OpLib {
 	l.Add("llp_bot_stoploss_all", "llp_bot", 0, func(w *World, p *BlockPlan) {
 		p.Txs = one("bot", &llptypes.MsgClosePositions{Creator: w.A("bot").Addr.String(), StopLoss: llpReqs(w)})
 	})
+	// price move and the bot's message in ONE block: the begin-block sweep of that block ran at the old
+	// price, so it is the MESSAGE that finds the positions closable (several closes inside one message)
+	for _, pr := range []string{"4", "2", "1"} {
+		pr := pr
+		l.Add("llp_bot_stoploss_all_at_"+pr, "llp_bot", 1, func(w *World, p *BlockPlan) {
+			p.SetAtom = pr
+			p.Txs = one("bot", &llptypes.MsgClosePositions{Creator: w.A("bot").Addr.String(), StopLoss: llpReqs(w)})
+		})
+		l.Add("llp_bot_close_all_at_"+pr, "llp_bot", 1, func(w *World, p *BlockPlan) {
+			p.SetAtom = pr
+			p.Txs = one("bot", &llptypes.MsgClosePositions{Creator: w.A("bot").Addr.String(), Liquidate: llpReqs(w), StopLoss: llpReqs(w)})
+		})
+	}
 	l.Add("llp_claim_t1", "llp_claim", 0, func(w *World, p *BlockPlan) {
 		ids := []uint64{}
 		for _, ps := range w.LLPsOf("t1") {
